@@ -38,6 +38,8 @@ Schema(
         "referenced_languages": "dict",
         "_model_processors": "list",
         "debug": "bool",
+        "_parser_blueprint": "obj:TextXModelParser",
+        "builtin_models": "obj:ModelRepository|none",
     },
 )
 
@@ -105,6 +107,7 @@ Schema(
         "filename_to_model": "dict",
         "delayed_crossrefs": "list",
         "_tx_model_params": "obj:ModelParams",
+        "_tx_metamodel": "obj:TextXMetaModel",
         "_tx_model_repository": "obj:GlobalModelRepository",
     },
 )
